@@ -93,6 +93,8 @@ func typeText(e ast.Expr) string {
 		if id, ok := x.X.(*ast.Ident); ok {
 			return id.Name + "." + x.Sel.Name
 		}
+	case *ast.IndexExpr: // atomic.Pointer[T]
+		return typeText(x.X)
 	case *ast.Ident:
 		return x.Name
 	case *ast.ChanType:
@@ -125,6 +127,9 @@ func initTypeText(e ast.Expr) string {
 			}
 			if id, ok := sel.X.(*ast.Ident); ok && id.Name == "ring" && sel.Sel.Name == "New" {
 				return "ring.Ring"
+			}
+			if id, ok := sel.X.(*ast.Ident); ok && id.Obj == nil {
+				return id.Name + ".?" // result of a function of another package (regexp.MustCompile, …)
 			}
 		}
 	}
@@ -187,12 +192,97 @@ func (p *srcPkg) forEachPkgVarMutation(n ast.Node, imports map[string]string, si
 			}
 			m := sel.Sel.Name
 			kind := p.kinds[id.Name]
+			if strings.HasPrefix(kind, "atomic.") && kind != "atomic.Value" {
+				// typed atomics (atomic.Uint64, atomic.Int32, atomic.Pointer[T], …): every method but Load updates the cell
+				if m != "Load" {
+					sink(id.Name, "atomic", s.Pos())
+				}
+				return true
+			}
 			if (containerLike[kind] && !containerReadOnly[m]) || mutatingMethod[m] {
 				sink(id.Name, "call:"+m, s.Pos())
+				return true
+			}
+			// a package-level object of a type of this package: does the method change it?
+			if fd, _ := p.methodDecl(kind, m); fd != nil {
+				if mut, locked := p.methodMutatesReceiver(kind, m, 0); mut {
+					k := "method:" + m
+					if locked {
+						k += "+lock"
+					}
+					sink(id.Name, k, s.Pos())
+				}
+				return true
+			}
+			// a type of another package that is not a known container: listed, to be justified
+			if kind != "" && !containerLike[kind] && strings.Contains(kind, ".") && kind != "sync.Mutex" && kind != "sync.RWMutex" {
+				sink(id.Name, "extcall:"+kind+"."+m, s.Pos())
 			}
 		}
 		return true
 	})
+}
+
+// methodDecl finds the declaration of method m on the named type of this package.
+func (p *srcPkg) methodDecl(typ, m string) (*ast.FuncDecl, *ast.File) {
+	for _, f := range p.files {
+		for _, d := range f.Decls {
+			if fd, ok := d.(*ast.FuncDecl); ok && fd.Body != nil && fd.Recv != nil && len(fd.Recv.List) == 1 &&
+				fd.Name.Name == m && typeNameOf(fd.Recv.List[0].Type) == typ {
+				return fd, f
+			}
+		}
+	}
+	return nil, nil
+}
+
+// methodMutatesReceiver: does the method (or a same-type method it calls, two levels) write a
+// component of its receiver? Second result: does it take a lock first (hint only).
+func (p *srcPkg) methodMutatesReceiver(typ, m string, depth int) (bool, bool) {
+	fd, f := p.methodDecl(typ, m)
+	if fd == nil || depth > 2 {
+		return false, false
+	}
+	var recv *ast.Ident
+	if len(fd.Recv.List[0].Names) == 1 {
+		recv = fd.Recv.List[0].Names[0]
+	}
+	if recv == nil {
+		return false, false
+	}
+	imports := fileImports(f)
+	mut, locked := false, false
+	forEachWrite(fd.Body, imports, func(t ast.Expr, kind string, pos token.Pos) {
+		if id, _ := rootOf(t, imports); id != nil && id.Obj == recv.Obj {
+			if _, bare := unparen(t).(*ast.Ident); !bare {
+				mut = true
+				if lockBefore(fd.Body, pos) {
+					locked = true
+				}
+			}
+		}
+	})
+	ast.Inspect(fd.Body, func(n ast.Node) bool {
+		if c, ok := n.(*ast.CallExpr); ok {
+			if sel, ok := c.Fun.(*ast.SelectorExpr); ok {
+				// mutating call on a field of the receiver (r.items.PushBack, r.m.Store) or another method of the receiver
+				if id, path := selectorPath(sel.X); id != nil && id.Obj == recv.Obj {
+					if len(path) > 0 && (mutatingMethod[sel.Sel.Name] || sel.Sel.Name == "Add") {
+						mut = true
+						locked = locked || lockBefore(fd.Body, c.Pos())
+					}
+					if len(path) == 0 {
+						if m2, l2 := p.methodMutatesReceiver(typ, sel.Sel.Name, depth+1); m2 {
+							mut = true
+							locked = locked || l2 || lockBefore(fd.Body, c.Pos())
+						}
+					}
+				}
+			}
+		}
+		return true
+	})
+	return mut, locked
 }
 
 // isPkgLevel says whether an identifier occurrence denotes a package-level
@@ -421,6 +511,53 @@ func pkgWriteFacts(root string, pkgs []string) ([]srcWrite, *callGraph, error) {
 							writes = append(writes, w)
 						}
 					})
+					// local aliases of package-level objects: x := pkgVar[k] / x, ok := pkgVar[k] / x := pkgVar.f / x := pkgVar
+					aliases := map[*ast.Object][]string{}
+					ast.Inspect(body, func(n ast.Node) bool {
+						as, ok := n.(*ast.AssignStmt)
+						if !ok || len(as.Rhs) != 1 || len(as.Lhs) < 1 {
+							return true
+						}
+						if _, isCall := unparen(as.Rhs[0]).(*ast.CallExpr); isCall {
+							return true
+						}
+						rid, _ := rootOf(as.Rhs[0], imports)
+						if rid == nil || !p.isPkgLevel(rid) {
+							return true
+						}
+						if u, isAddr := unparen(as.Rhs[0]).(*ast.UnaryExpr); isAddr && u.Op != token.AND {
+							return true
+						}
+						if lid, ok := as.Lhs[0].(*ast.Ident); ok && lid.Obj != nil && lid.Name != "_" {
+							aliases[lid.Obj] = append(aliases[lid.Obj], rid.Name)
+						}
+						return true
+					})
+					if len(aliases) > 0 {
+						forEachWrite(body, imports, func(t ast.Expr, kind string, pos token.Pos) {
+							id, _ := rootOf(t, imports)
+							if id == nil || id.Obj == nil {
+								return
+							}
+							vsAliased, ok := aliases[id.Obj]
+							if !ok {
+								return
+							}
+							if _, bare := unparen(t).(*ast.Ident); bare && kind != "addr" {
+								return // re-binding the local, not a write through it
+							}
+							if kind == "addr" {
+								return
+							}
+							for _, v := range vsAliased {
+								w := srcWrite{p.name + "." + v, fn, kind + "@alias"}
+								if !seen[w] {
+									seen[w] = true
+									writes = append(writes, w)
+								}
+							}
+						})
+					}
 					p.forEachPkgVarMutation(body, imports, func(v string, kind string, pos token.Pos) {
 						w := srcWrite{p.name + "." + v, fn, kind}
 						if !seen[w] {
@@ -590,10 +727,11 @@ type objWrite struct {
 	Field string
 	Fn    string
 	Kind  string
+	Phase string // "validate": inside a method named Validate (runs once, before the tree is shared); "run": anywhere else
 }
 
 func isSharedObjType(name string) bool {
-	return name == "ECALRuntimeProvider" || strings.HasSuffix(name, "Runtime")
+	return name == "ECALRuntimeProvider" || strings.HasSuffix(name, "Runtime") || name == "ASTNode" || name == "function"
 }
 
 func typeNameOf(e ast.Expr) string {
@@ -602,6 +740,9 @@ func typeNameOf(e ast.Expr) string {
 	}
 	if id, ok := e.(*ast.Ident); ok {
 		return id.Name
+	}
+	if sel, ok := e.(*ast.SelectorExpr); ok { // parser.ASTNode
+		return sel.Sel.Name
 	}
 	return ""
 }
@@ -700,15 +841,59 @@ func sharedObjectWriteFacts(root string, pkg string) ([]objWrite, error) {
 					obj, field = "ECALRuntimeProvider", path[1]
 				} else if field == "baseRuntime" && len(path) > 1 {
 					field = path[1]
+				} else if field == "node" && len(path) > 1 {
+					obj, field = "ASTNode", path[1] // the AST node the component is attached to: shared by all evaluations
 				}
 				if kind != "atomic" && lockBefore(body, pos) {
 					kind += "+lock"
 				}
-				w := objWrite{obj, field, fn, kind}
+				phase := "run"
+				if fd.Name.Name == "Validate" && fd.Recv != nil {
+					phase = "validate"
+				}
+				w := objWrite{obj, field, fn, kind, phase}
 				if !seen[w] {
 					seen[w] = true
 					out = append(out, w)
 				}
+			})
+			// mutating method calls on FIELDS of shared objects: rt.erp.MutexLog.Add(…), rt.cache.Store(…)
+			ast.Inspect(body, func(n ast.Node) bool {
+				c, ok := n.(*ast.CallExpr)
+				if !ok {
+					return true
+				}
+				sel, ok := c.Fun.(*ast.SelectorExpr)
+				if !ok || !(mutatingMethod[sel.Sel.Name] || sel.Sel.Name == "Add" || sel.Sel.Name == "Get") {
+					return true
+				}
+				id, path := selectorPath(sel.X)
+				if id == nil || id.Obj == nil || len(path) == 0 {
+					return true
+				}
+				obj, ok := shared[id.Obj]
+				if !ok {
+					return true
+				}
+				field := path[0]
+				if field == "erp" && len(path) > 1 {
+					obj, field = "ECALRuntimeProvider", path[1]
+				} else if field == "erp" || field == "baseRuntime" {
+					return true // a method of the provider / base component itself, not of a field
+				}
+				if sel.Sel.Name == "Get" && !(strings.Contains(strings.ToLower(field), "pool")) {
+					return true
+				}
+				phase := "run"
+				if fd.Name.Name == "Validate" && fd.Recv != nil {
+					phase = "validate"
+				}
+				w := objWrite{obj, field, fn, "call:" + sel.Sel.Name, phase}
+				if !seen[w] {
+					seen[w] = true
+					out = append(out, w)
+				}
+				return true
 			})
 		}
 	}
@@ -725,5 +910,208 @@ func sharedObjectWriteFacts(root string, pkg string) ([]objWrite, error) {
 		}
 		return a.Kind < b.Kind
 	})
+	return out, nil
+}
+
+// ---------------------------------------------------------------- where the value of a package-level counter flows
+
+// counterFlows: for every place where the value of package-level variable `name` of package pkg is
+// obtained (result of an atomic Add / Load / method Add / plain read), where does the value go?
+// "instanceID"  = (through fmt.Sprint / Sprintf / strconv / a conversion / one local variable) into the field
+//                 instanceID (first field) of a baseRuntime literal;
+// "other:<ctx>" = into a condition, an operator, an index, a return value, another field — the value
+//                 influences something else (refutes "flows only into instanceID");
+// "unknown:<ctx>" = a context the extractor does not judge.
+func counterFlows(root, pkg, name string) ([][2]string, error) {
+	p, err := loadSrcPkg(filepath.Join(root, pkg))
+	if err != nil {
+		return nil, err
+	}
+	var out [][2]string
+	seen := map[[2]string]bool{}
+	for _, f := range p.files {
+		for _, d := range f.Decls {
+			fd, ok := d.(*ast.FuncDecl)
+			if !ok || fd.Body == nil || (fd.Name.Name == "init" && fd.Recv == nil) {
+				continue
+			}
+			fn := funcName(p.name, fd)
+			parents := map[ast.Node]ast.Node{}
+			var stack []ast.Node
+			ast.Inspect(fd.Body, func(n ast.Node) bool {
+				if n == nil {
+					stack = stack[:len(stack)-1]
+					return true
+				}
+				if len(stack) > 0 {
+					parents[n] = stack[len(stack)-1]
+				}
+				stack = append(stack, n)
+				return true
+			})
+			var classify func(n ast.Node, depth int) string
+			classify = func(n ast.Node, depth int) string {
+				for {
+					par := parents[n]
+					switch x := par.(type) {
+					case *ast.ParenExpr:
+						n = par
+						continue
+					case *ast.UnaryExpr: // &counter inside atomic.AddUint64(&counter, 1)
+						n = par
+						continue
+					case *ast.SelectorExpr: // counter.Add / counter.Load
+						n = par
+						continue
+					case *ast.CallExpr:
+						if sel, ok := x.Fun.(*ast.SelectorExpr); ok {
+							if id, ok := sel.X.(*ast.Ident); ok && (id.Name == "atomic" || id.Name == "fmt" || id.Name == "strconv") {
+								n = par
+								continue
+							}
+							if sel == n { // method call on the counter itself
+								if sel.Sel.Name == "Store" || sel.Sel.Name == "CompareAndSwap" || sel.Sel.Name == "Swap" {
+									return "other:" + sel.Sel.Name
+								}
+								n = par
+								continue
+							}
+						}
+						if id, ok := x.Fun.(*ast.Ident); ok && (id.Name == "string" || id.Name == "uint64" || id.Name == "int") {
+							n = par
+							continue
+						}
+						return "unknown:argument of a call"
+					case *ast.CompositeLit:
+						if typeNameOf(x.Type) == "baseRuntime" && len(x.Elts) > 0 && x.Elts[0] == n {
+							return "instanceID"
+						}
+						return "other:element of a " + typeNameOf(x.Type) + " literal"
+					case *ast.KeyValueExpr:
+						if k, ok := x.Key.(*ast.Ident); ok && k.Name == "instanceID" {
+							if cl, ok := parents[par].(*ast.CompositeLit); ok && typeNameOf(cl.Type) == "baseRuntime" {
+								return "instanceID"
+							}
+						}
+						return "other:keyed element"
+					case *ast.AssignStmt:
+						// id := counter.Add(1): follow the local
+						if depth < 2 && len(x.Lhs) == 1 && len(x.Rhs) == 1 {
+							if id, ok := x.Lhs[0].(*ast.Ident); ok && id.Obj != nil {
+								res := ""
+								ast.Inspect(fd.Body, func(u ast.Node) bool {
+									if uid, ok := u.(*ast.Ident); ok && uid.Obj == id.Obj && uid != id {
+										c := classify(uid, depth+1)
+										if res == "" || (res == "instanceID" && c != "instanceID") {
+											res = c
+										}
+									}
+									return true
+								})
+								if res == "" {
+									return "unknown:value dropped"
+								}
+								return res
+							}
+						}
+						return "other:assignment"
+					case *ast.ExprStmt:
+						return "dropped"
+					case *ast.BinaryExpr:
+						return "other:operator"
+					case *ast.IfStmt, *ast.SwitchStmt, *ast.ForStmt:
+						return "other:condition"
+					case *ast.IndexExpr:
+						return "other:index"
+					case *ast.ReturnStmt:
+						return "other:returned"
+					default:
+						return fmt.Sprintf("unknown:%T", par)
+					}
+				}
+			}
+			ast.Inspect(fd.Body, func(n ast.Node) bool {
+				if id, ok := n.(*ast.Ident); ok && id.Name == name && p.isPkgLevel(id) {
+					c := classify(id, 0)
+					if c == "dropped" {
+						return true
+					}
+					e := [2]string{fn, c}
+					if !seen[e] {
+						seen[e] = true
+						out = append(out, e)
+					}
+				}
+				return true
+			})
+		}
+	}
+	sort.Slice(out, func(i, j int) bool { return out[i][0]+out[i][1] < out[j][0]+out[j][1] })
+	return out, nil
+}
+
+// ---------------------------------------------------------------- Validate call sites
+
+// validateCallSites: every call `<x>.Validate()` in the package, classified:
+// "recursion" = inside a method named Validate, on the embedded base component or on a child's runtime;
+// "fresh"     = on the Runtime of a tree the same function obtained from ParseWithRuntime / Parse (validated
+//               by the goroutine that parsed it, before anybody else can hold it);
+// "other"     = anything else (e.g. a lazily validating Eval on a shared component).
+func validateCallSites(root, pkg string) ([][2]string, error) {
+	p, err := loadSrcPkg(filepath.Join(root, pkg))
+	if err != nil {
+		return nil, err
+	}
+	var out [][2]string
+	seen := map[[2]string]bool{}
+	for _, f := range p.files {
+		for _, d := range f.Decls {
+			fd, ok := d.(*ast.FuncDecl)
+			if !ok || fd.Body == nil {
+				continue
+			}
+			fn := funcName(p.name, fd)
+			// trees obtained from the parser in this function
+			fresh := map[*ast.Object]bool{}
+			ast.Inspect(fd.Body, func(n ast.Node) bool {
+				if as, ok := n.(*ast.AssignStmt); ok && len(as.Rhs) == 1 {
+					if c, ok := as.Rhs[0].(*ast.CallExpr); ok {
+						if sel, ok := c.Fun.(*ast.SelectorExpr); ok && (sel.Sel.Name == "ParseWithRuntime" || sel.Sel.Name == "Parse") {
+							if id, ok := as.Lhs[0].(*ast.Ident); ok && id.Obj != nil {
+								fresh[id.Obj] = true
+							}
+						}
+					}
+				}
+				return true
+			})
+			ast.Inspect(fd.Body, func(n ast.Node) bool {
+				c, ok := n.(*ast.CallExpr)
+				if !ok {
+					return true
+				}
+				sel, ok := c.Fun.(*ast.SelectorExpr)
+				if !ok || sel.Sel.Name != "Validate" || len(c.Args) != 0 {
+					return true
+				}
+				class := "other"
+				id, path := selectorPath(sel.X)
+				switch {
+				case id != nil && id.Obj != nil && fresh[id.Obj]:
+					class = "fresh"
+				case fd.Name.Name == "Validate" && fd.Recv != nil && id != nil && len(path) >= 1 &&
+					(path[len(path)-1] == "baseRuntime" || path[len(path)-1] == "Runtime" || strings.HasSuffix(path[len(path)-1], "Runtime")):
+					class = "recursion"
+				}
+				e := [2]string{fn, class}
+				if !seen[e] {
+					seen[e] = true
+					out = append(out, e)
+				}
+				return true
+			})
+		}
+	}
+	sort.Slice(out, func(i, j int) bool { return out[i][0]+out[i][1] < out[j][0]+out[j][1] })
 	return out, nil
 }
